@@ -88,7 +88,6 @@ func jobsFor(id, tier string) []*Job {
 				bp = append(bp, []int{sh, shards2, 2, 0})
 			}
 		}
-		bp = append(bp, []int{0, 2, 2, 2}, []int{1, 2, 2, 2}) // every indexing built-in (*.at) with two arguments, in every tier
 		bj := wmk("builtin", "zzverifw.H_C01_builtin", bp)
 		if !thorough {
 			bj.TimeoutS = 60
@@ -96,6 +95,17 @@ func jobsFor(id, tier string) []*Job {
 			bj.MaxSteps = 1000000
 		}
 		add(split(bj)...)
+		// every indexing built-in (*.at) with two arguments, in every tier: receiver any shape,
+		// index any shape incl. [i], [(a:b:c)], (a:b:c) with symbolic payloads (explored first)
+		var ip [][]int
+		for sh := 0; sh < 8; sh++ {
+			ip = append(ip, []int{sh, 8, 2, 2})
+		}
+		ij := wmk("indexers", "zzverifw.H_C01_builtin", ip)
+		ij.TimeoutS = 150
+		ij.SolverMs = 2000
+		ij.MaxSteps = 1000000
+		add(split(ij)...)
 		var sp [][]int
 		for sh := 0; sh < 6; sh++ {
 			sp = append(sp, []int{sh, 6})
@@ -443,7 +453,8 @@ func boundsFor(id, tier string, jobs []*Job) map[string]interface{} {
 		} else {
 			b["arity"] = "0 and 1 argument for every built-in; 2 arguments for a quarter of them (6 of 24 shards)"
 		}
-		b["argument_shapes"] = "symbolic int, symbolic float, a range whose three bounds are each nil or any int64 (bare, and wrapped in an array as an index argument), nil, bool, strs, arrays, objects, maps, ranges, function, iterator, Either values, error value, prototypes, bear children, symbol, char (solver choice per position)"
+		b["indexers"] = "every built-in named at (what recv[index] calls) with receiver any shape and index any shape, incl. [i] with i any int64 and [(a:b:c)] / (a:b:c) with each bound nil or any int64"
+		b["argument_shapes"] = "symbolic int, symbolic float, nil, bool, strs, arrays, objects, maps, ranges, function, iterator, Either values, error value, prototypes, bear children, symbol, char (solver choice per position)"
 		b["second_step"] = "for arity 0..1 every non-error result is then printed, compared, unpacked with * and ** into calls and literals, iterated and interpolated (14 consumers)"
 		b["singletons"] = "every name of the constants environment x 15 generic probes (printing, lookup, comparison, bear, which, try)"
 	case "C17":
